@@ -90,7 +90,9 @@ CLAIMS = {
               "mode/register bits, operand bytes, label and relative-label slots) must equal the reference encoding, the address "
               "counter must advance by exactly the number of slots, and exactly one line record with the same instruction must be "
               "appended. .ORG/.BYTE zero fill, .DB order, .DW byte order (on word cells with disjoint high/low byte sets), .EQU and "
-              "label definitions, the relative-jump closure and the late substitution in finish are decided on cells."),
+              "label definitions, the relative-jump closure and the late substitution in finish are decided on cells. The symbol "
+              "table must come out of every non-defining instruction and directive exactly as it went in (4600 cases; any write "
+              "or unmodelled access to it counts)."),
         note=("One genuine defect found and fixed (.BYTE advanced the counter twice). Not decided: whole multi-line programs "
               "as a composition (follows from the per-line clauses), wrap-around beyond 255 bytes (C06 findings). The reference "
               "encoding is transcribed from the instruction table and cross-checked against the control store's dispatch in C01."),
@@ -153,15 +155,18 @@ CLAIMS = {
         design="3/C12"),
     "C08": dict(
         category="other",
-        technique="per-function dependence (information-flow) analysis on MIR + abstract interpretation on bit-defined sub-domains",
+        technique="per-function dependence (information-flow) analysis on MIR + abstract interpretation on bit-defined sub-domains and on a partition of the operand space into ~5600 cells (adaptive bisection where the non-relational domain is imprecise)",
         text=("For each of the 16 ALU functions the dependence sets of result and carry-out on (A, B, carry-in) are computed by a "
               "forward dependence analysis of the function's arm and must equal the documented sets; shape facts that follow from "
               "the documentation are decided by abstract interpretation on sub-domains selected by one bit (A odd/even, A or B "
               "with bit 7 set/clear, carry-in set/clear): constant outputs, pass-through identity, bit 0 to carry, the value of "
               "bit 7 for the four shifts, carry hold/invert, carry-in forcing carry-out of the carry-holding add, and Z/N derived "
-              "from the result."),
-        note=("The numeric function table (sums, carry polarity of the subtracting adds) is NOT decided: exhausting 2 097 152 "
-              "points would be running the function. Two genuine defects were found and fixed (ADDH dropped carry-in; RR behaved "
+              "from the result. On a partition of the operand space on which the documented carry-out is constant (adders: A "
+              "fixed, B an interval on one side of the carry threshold; NOR: A fixed; shifts: aligned blocks of 16 with fixed bit "
+              "0) the result set, carry, zero and negative sets of every cell must be the documented ones."),
+        note=("Pointwise equality of the function table is not decided as such: inside a cell only the set of results is compared "
+              "(a permutation inside a cell would be invisible); no operand pair is evaluated on its own except where bisection of an "
+              "imprecise cell bottoms out. Two genuine defects were found and fixed (ADDH dropped carry-in; RR behaved "
               "as LSR)."),
         design="3/C08"),
     "C15": dict(
@@ -171,7 +176,9 @@ CLAIMS = {
               "the wait flag is raised exactly for RAM accesses; a waiting edge consumes the flag and changes nothing else; the "
               "micro-address is written exactly once per un-skipped edge. On the micro-CFG all data-condition outcomes of each of "
               "the 1493 instruction forms have the same number of control words and the same sequence of bus accesses, the only "
-              "exceptions being the conditional relative jumps (two lengths), MUL and DIV; the interrupt entry has a fixed tail."),
+              "exceptions being the conditional relative jumps (two lengths), MUL and DIV; the interrupt entry has a fixed tail. "
+              "Forms that differ only in register numbers (aliased entry words) must have equal cost, and every one of the 123 "
+              "form groups must have the documented number of control words and bus accesses (spec/cycles.toml)."),
         note=("Decides the cost rule (micro-steps + one wait per RAM access, none for I/O) and its independence of history and step "
               "mode. Not decided: the concrete cycle number of a concrete program (needs register values to classify each access)."),
         design="3/C15"),
@@ -181,7 +188,7 @@ CLAIMS = {
         text=("The control skeleton of Machine::trigger_key_clock is decided independently of how its loops are written: the "
               "function is abstractly interpreted with the clock edge replaced by an abstract edge that walks a scripted sequence "
               "of DONE/non-DONE control words and halts; in every scenario (at a boundary, with a wait, mid-instruction, halting "
-              "during the step, already halted; both step modes) the number of edges issued must equal the reference definition "
+              "during the step, already halted, an instruction of 600 edges; both step modes) the number of edges issued must equal the reference definition "
               "and nothing else may be written. On the micro-CFG no boundary has a boundary successor, and 'a step returns' is "
               "decided per opcode by reachability of a boundary from every control state of its routine."),
         note=("Known findings (36 keys): the 20 undefined first bytes and, for each two-byte form, the undefined second bytes "
@@ -207,7 +214,8 @@ CLAIMS = {
               "abstractly with byte and bus unknown, giving per cell the mod-set of a write and the storage a read returns, which "
               "must match the address map; RAM index/value identity is shown by def-use chains (no arithmetic between the address "
               "parameter and the index); reads are pure (&self, Freeze types, empty write log); register fields have only their "
-              "documented writers."),
+              "documented writers; after a write the addressed cell/register holds the written byte (its defined bits for flag "
+              "registers) whatever it held before, and no other RAM cell changes."),
         note=("Decides all clauses of DESIGN 3/C10. The sequence-level statement (later reads return the last write) follows for a "
               "plain array from index identity and single writers."),
         design="3/C10"),
@@ -229,8 +237,10 @@ CLAIMS = {
               "with all other fields unknown: a halted machine is shown to be left untouched by clock edges in both step "
               "modes, the only state transitions are those the property lists, the stack/PC predicates are checked on "
               "interval cells that must each yield a single outcome (so a shifted constant or a wrong comparison is caught "
-              "for every value, not a sample), and every syntactic writer of `state` is covered by an analysed entry point."),
-        note=("Decides: absorption of halt states, exact writer set and state effect per entry point, exact bands of the "
+              "for every value, not a sample), every syntactic writer of `state` is covered by an analysed entry point, and an "
+              "error stop raised by the register commit of a clock edge survives the opcode load of the same edge."),
+        note=("One genuine defect found and fixed (error stop downgraded to a regular stop when the same edge loaded STOP). "
+              "Decides: absorption of halt states, exact writer set and state effect per entry point, exact bands of the "
               "supervision predicates for the five stack sizes and the program-size limit, halting bytes at every IR load. "
               "Not decided: behaviour when external code pokes registers through registers_mut(), numeric claims about "
               "programs. Assumes set_stacksize is never called with NotSet from outside the workspace."),
